@@ -49,10 +49,93 @@ def _apply(v: dict) -> Optional[dict]:
     return overlay
 
 
+def apply_patch_text(diff: str, read) -> Optional[dict]:
+    """Apply a unified (git) diff in memory: -> {relpath: new text}, or None when a hunk's old side is not in the tree.
+    `read(relpath)` returns the current text (None: file absent).  New files are created; nothing touches the disk."""
+    overlay: dict = {}
+    files: list = []
+    cur = None
+    for line in diff.splitlines():
+        if line.startswith("diff --git"):
+            cur = {"old": None, "new": None, "hunks": []}
+            files.append(cur)
+        elif cur is not None and line.startswith("--- "):
+            cur["old"] = None if line[4:].strip() == "/dev/null" else line[4:].strip()[2:]
+        elif cur is not None and line.startswith("+++ "):
+            cur["new"] = None if line[4:].strip() == "/dev/null" else line[4:].strip()[2:]
+        elif cur is not None and line.startswith("@@"):
+            cur["hunks"].append({"start": int(line.split()[1].split(",")[0].lstrip("-")), "lines": []})
+        elif cur is not None and cur["hunks"] and (line[:1] in (" ", "+", "-") or line == ""):
+            cur["hunks"][-1]["lines"].append(line if line else " ")
+        elif line.startswith("\\"):
+            continue
+    for f in files:
+        rel = f["new"] or f["old"]
+        if rel is None:
+            continue
+        src = overlay.get(rel)
+        if src is None:
+            src = read(f["old"]) if f["old"] else ""
+        if src is None:
+            return None
+        lines = src.split("\n")
+        shift = 0
+        for h in f["hunks"]:
+            old_blk = [l[1:] for l in h["lines"] if l[:1] in (" ", "-")]
+            new_blk = [l[1:] for l in h["lines"] if l[:1] in (" ", "+")]
+            at = h["start"] - 1 + shift
+            if lines[at:at + len(old_blk)] != old_blk:
+                at = next((i for i in range(len(lines) - len(old_blk) + 1) if lines[i:i + len(old_blk)] == old_blk), -1)
+                if at < 0 or not old_blk:
+                    if not old_blk and not f["old"]:
+                        at = 0
+                    else:
+                        return None
+            lines[at:at + len(old_blk)] = new_blk
+            shift += len(new_blk) - len(old_blk)
+        overlay[rel] = "\n".join(lines)
+    return overlay
+
+
+def corpus_variants(prop: Optional[str]) -> list[dict]:
+    """The stored seeded corpus as variants: seeded/<P>-k (must fire in P's own check) and seeded/refactors/<P>-rk
+    (behaviour-preserving: P's check must stay silent)."""
+    import glob
+    root = os.path.join(os.path.dirname(HERE), "seeded")
+    out = []
+    for d in sorted(glob.glob(os.path.join(root, "C*"))):
+        mp = os.path.join(d, "meta.json")
+        if not os.path.exists(mp):
+            continue
+        with open(mp, encoding="utf-8") as fh:
+            m = json.load(fh)
+        if prop is None or m["breaks_property"] == prop:
+            out.append({"id": "seed:" + m["id"], "prop": m["breaks_property"], "expect": "fire", "rule": None, "patch": os.path.join(d, "patch.diff")})
+    for d in sorted(glob.glob(os.path.join(root, "refactors", "C*"))):
+        mp = os.path.join(d, "meta.json")
+        if not os.path.exists(mp):
+            continue
+        with open(mp, encoding="utf-8") as fh:
+            m = json.load(fh)
+        if prop is None or m["written_for_property"] == prop:
+            out.append({"id": "refactor:" + m["id"], "prop": m["written_for_property"], "expect": "silent", "rule": None, "patch": os.path.join(d, "patch.diff")})
+    return out
+
+
 def run_variant(v: dict) -> dict:
     from .main import run_property
 
-    overlay = _apply(v)
+    if "patch" in v:
+        def read(rel):
+            pth = os.path.join(repo_root(), rel)
+            if not os.path.exists(pth):
+                return None
+            with open(pth, encoding="utf-8") as fh:
+                return fh.read()
+        with open(v["patch"], encoding="utf-8") as fh:
+            overlay = apply_patch_text(fh.read(), read)
+    else:
+        overlay = _apply(v)
     if overlay is None:
         return {"id": v["id"], "status": "skipped", "why": "anchor text not present"}
     out: dict = {}
@@ -69,7 +152,7 @@ def run_variant(v: dict) -> dict:
 
 
 def run_for(prop: Optional[str], jobs: int = 16, verbose: bool = False) -> int:
-    vs = [v for v in load_variants() if prop is None or v["prop"] == prop]
+    vs = [v for v in load_variants() if prop is None or v["prop"] == prop] + corpus_variants(prop)
     if not vs:
         print(f"SELFTEST property={prop} no variants")
         return 0
